@@ -22,7 +22,7 @@ REQUIRED_THEOREMS = ['genCfg_ok', 'parse_format_fields', 'format_idempotent', 'c
                      'from_date_canonical', 'from_date_time_canonical', 'from_time_canonical', 'format_parse',
                      'duration_int_format', 'duration_examples', 'repaired_roundtrips', 'tiny_amount_not_stable',
                      'parse_dur', 'format_dur', 'duration_int_roundtrip', 
-                     'parse_dur_frac', 'format_dur_dec', 'duration_frac_roundtrip',
+                     'parse_dur_frac', 'format_dur_dec', 'duration_frac_roundtrip', 'parse_dur_exponent', 'tiny_amount_general',
                      # functions of the package outside the parse/format property (characterisation only)
                      'genEng_facts', 'convert_time_12h', 'english_date_suffix', 'to_string_week_not_implemented',
                      'set_to_string_always_raises', 'convert_date_keyerror', 'creator_yesterday', 'infer_date_forms',
